@@ -1,0 +1,12 @@
+//go:build !verif
+
+// Package verifhook provides instrumentation points for the external
+// verification harness. Without the `verif` build tag every function here is
+// an empty, inlinable no-op.
+package verifhook
+
+// Point marks a named place in the code.
+func Point(name string, args ...any) {}
+
+// Tune offers a value (usually a pointer) for adjustment.
+func Tune(name string, v any) {}
